@@ -257,10 +257,10 @@ class _AmplitudeMatern(Operator):
         vol1[1:] = totvol**0.5
         vol0 = makeField(pow_spc, vol0)
         vol1 = makeField(pow_spc, vol1)
+        # std = sqrt of integral of power spectrum without the zero-mode, in
+        # units of the volume (as for the non-parametric amplitude model)
+        self._fluc = (vol1*op).power(2).integrate().sqrt().scale(totvol**-0.5)
         op = vol0 + vol1*op
-
-        # std = sqrt of integral of power spectrum
-        self._fluc = op.power(2).integrate().sqrt()
         self.apply = op.apply
         self._domain, self._target = op.domain, op.target
         self._repr_str = "_AmplitudeMatern: " + op.__repr__()
